@@ -11,7 +11,7 @@ from statham.schema.elements import String
 from statham.schema.validation.format import format_checker
 
 from sim import gen, tprog
-from sim.c16 import NAMES, PRISTINE_REGISTER, evaluate, gen_pred, make_pred
+from sim.c16 import NAMES, PRISTINE_REGISTER, evaluate, gen_pred, make_pred, reset_registry
 from sim.common import gen_perm, install_validator_order
 from sim.world import attempt
 
@@ -64,7 +64,7 @@ def _factory(case, record):
 
 
 def _reset():
-    format_checker._callable_register = dict(PRISTINE_REGISTER)  # pylint: disable=protected-access
+    reset_registry()
 
 
 def gen_case(rng):
